@@ -374,6 +374,10 @@ func init() {
 		}
 		all := append(append([]*Term{}, h...), pw...)
 		it.assume(it.ts.UF(fmt.Sprintf("bcrypt_ok_%d_%d", n, len(pw)), 0, all...))
+		// the hash records the cost it was generated with
+		if cost, ok := args[1].(*Term); ok {
+			it.assume(it.ts.Eq(it.ts.UF(fmt.Sprintf("bcrypt_cost_%d", n), 64, h...), cost))
+		}
 		return TupleV{it.bytesToSlice(h), &IfaceV{}}
 	}
 	intercepts["golang.org/x/crypto/bcrypt.Cost"] = func(it *Interp, fn *ssa.Function, args []Value) Value {
